@@ -21,7 +21,8 @@ ANCHORS = [
 RULE = (
     "NaiveForecaster: full product n x strategy x sp x window_length (None and 1..n) x horizons "
     "(every subset of {1..2sp+1} with <=3 steps, every single in-sample step whose full window "
-    "exists, mixed in/out pairs) x NaN pattern (mean). PolynomialTrendForecaster: degree x "
+    "exists, mixed in/out pairs) x NaN pattern (mean: each of the last 4 positions; drift: every single "
+    "position and one pair strictly inside the window). PolynomialTrendForecaster: degree x "
     "intercept x n x in/out horizons. statsmodels adapters: option grids vs direct statsmodels "
     "calls. Index start in {0,5} rotated by case index+seed; value family by seed. non-trivial = "
     "fit accepted and forecast compared; distinct by full configuration."
@@ -66,6 +67,17 @@ def gen_cases(tier, seed):
                         start = 5 if (i + seed) % 2 else 0
                         yield dict(kind="naive", n=n, strategy=strat, sp=sp, W=W, fh=fh,
                                    start=start, fam=(seed + i // 7) % 3, nan=None)
+                    if strat == "drift":
+                        # missing values strictly inside the window (its end points are observed)
+                        W_ = n if W is None else W
+                        inner = [[q] for q in range(2, min(W_ - 1, 5) + 1)]
+                        if W_ >= 4:
+                            inner.append([2, 3])
+                        for nanpos in inner:
+                            for fh in ([1, 3], [2], [-1, 1]):
+                                i += 1
+                                yield dict(kind="naive", n=n, strategy=strat, sp=sp, W=W, fh=fh,
+                                           start=0, fam=(seed + i) % 3, nan=nanpos)
                     if strat == "mean":
                         for nanpos in range(1, min(n, 4) + 1):
                             i += 1
@@ -102,6 +114,12 @@ def gen_cases(tier, seed):
                         continue
                     yield dict(kind="es", n=n, fh=fh, trend=trend, damped=damped,
                                seasonal=seasonal, sp=sp, start=0, fam=seed % 2)
+            # further documented options of the exponential smoothing adapter
+            for opt in ("boxcox_true", "boxcox_false", "boxcox_half", "boxcox_log", "heuristic",
+                        "known", "legacy"):
+                for trend in (None, "add"):
+                    yield dict(kind="es", n=n, fh=fh, trend=trend, damped=False, seasonal=None,
+                               sp=None, start=0, fam=seed % 2, opt=opt)
             for error in ("add", "mul"):
                 for trend in (None, "add"):
                     for seasonal, sp in ((None, 1), ("add", 3)):
@@ -211,7 +229,8 @@ def _naive(case, res):
     n, strat, sp, W, fh = case["n"], case["strategy"], case["sp"], case["W"], case["fh"]
     y = _series(n, case["fam"], case["start"])
     if case["nan"] is not None:
-        y.iloc[n - case["nan"]] = np.nan
+        for q in (case["nan"] if isinstance(case["nan"], list) else [case["nan"]]):
+            y.iloc[n - q] = np.nan
     vals = [float(v) for v in y.values]
     W_ = naive_W(strat, sp, W, n)
     valid = W_ <= n and not (strat == "mean" and sp > 1 and W is not None and W < sp) \
@@ -236,15 +255,16 @@ def _naive(case, res):
     if any(e is None for e in exp):
         res.outcome("naive:window-clipped")
         return res
-    if strat == "drift" and (vals[c] != vals[c]):
-        return res
+    if strat == "drift" and (vals[c] != vals[c] or any(e != e for e in exp)):
+        res.outcome("naive:drift:end-point-missing")
+        return res  # documented rejection: an end point of a needed window is missing
     p = call(lambda: f.predict(fh))
     res.outcome("naive:%s:%s" % (strat, p.kind))
     if not p.ok:
         res.violate("naive:%s:predict" % strat, "predict raised", expected=exp,
                     observed=p.brief())
         return res
-    res.nt((n, strat, sp, W, tuple(fh), case["nan"]))
+    res.nt((n, strat, sp, W, tuple(fh), str(case["nan"])))
     got = p.value
     lab = [case["start"] + c + h for h in fh]
     if list(got.index) != lab:
@@ -304,11 +324,20 @@ def _sm(case, res):
         from statsmodels.tsa.holtwinters import ExponentialSmoothing as SM
         from sktime.forecasting.exp_smoothing import ExponentialSmoothing
 
+        known = dict(initialization_method="known", initial_level=21.0)
+        if case["trend"]:
+            known["initial_trend"] = 0.5
+        extra = {"boxcox_true": dict(use_boxcox=True), "boxcox_false": dict(use_boxcox=False),
+                 "boxcox_half": dict(use_boxcox=0.5), "boxcox_log": dict(use_boxcox="log"),
+                 "heuristic": dict(initialization_method="heuristic"), "known": known,
+                 "legacy": dict(initialization_method="legacy-heuristic")}.get(case.get("opt"), {})
         f = ExponentialSmoothing(trend=case["trend"], damped_trend=case["damped"],
-                                 seasonal=case["seasonal"], sp=case["sp"])
+                                 seasonal=case["seasonal"], sp=case["sp"], **extra)
+        sm_kw = dict(initialization_method="estimated")
+        sm_kw.update(extra)
         ref = call(lambda: SM(y.copy(), trend=case["trend"], damped_trend=case["damped"],
                               seasonal=case["seasonal"], seasonal_periods=case["sp"],
-                              initialization_method="estimated").fit().predict(n, n + H - 1))
+                              **sm_kw).fit().predict(n, n + H - 1))
     elif k == "ets":
         from statsmodels.tsa.exponential_smoothing.ets import ETSModel
         from sktime.forecasting.ets import AutoETS
